@@ -93,6 +93,13 @@ theorem negative_unlimited (fo fc io : Bool) (m : Int) (hm : m < 0) (jobs : List
     resultOf (run sys (init fo fc io m jobs) sched) i ≠ some Run.Res.rejected :=
   CM.Lemmas.RunProj.rp_negative_unlimited fo fc io m hm jobs sched i
 
+/-- whole calls, every schedule: a limit at least the number of callers refuses NOBODY (no call ends `rejected`,
+    whatever the circuit state, the overrides and the other calls do) -/
+theorem large_limit_never_rejects (fo fc io : Bool) (m : Int) (jobs : List Run.Job) (hm : (jobs.length : Int) ≤ m)
+    (sched : List Nat) (i : Nat) :
+    resultOf (run sys (init fo fc io m jobs) sched) i ≠ some Run.Res.rejected :=
+  CM.Lemmas.RunProj.rp_large_limit_never_rejects fo fc io m jobs hm sched i
+
 /-- once every call has returned — by return, refusal or PANIC — the gauge reads zero -/
 theorem quiescent_gauge_zero (fo fc io : Bool) (m : Int) (jobs : List Run.Job) (sched : List Nat)
     (hq : allDone (run sys (init fo fc io m jobs) sched) = true) : (run sys (init fo fc io m jobs) sched).shared.gauge = 0 :=
